@@ -340,7 +340,11 @@ func run(db *gorm.DB, in Input) (o Obs) {
 	}
 	// Pluck
 	o.PluckID, o.PluckV = []int64{}, []int64{}
-	fail("pluck_id", chain(db, in).Model(&Item{}).Pluck("id", &o.PluckID).Error)
+	pr := chain(db, in).Model(&Item{}).Pluck("id", &o.PluckID)
+	fail("pluck_id", pr.Error)
+	if pr.Error == nil && pr.RowsAffected != int64(len(o.PluckID)) {
+		o.Errs = append(o.Errs, fmt.Sprintf("pluck: RowsAffected=%d for %d values", pr.RowsAffected, len(o.PluckID)))
+	}
 	fail("pluck_v", chain(db, in).Model(&Item{}).Pluck("v", &o.PluckV).Error)
 	// Count (compared only for chains without limit/offset)
 	o.Count = -1
@@ -352,6 +356,9 @@ func run(db *gorm.DB, in Input) (o Obs) {
 		var it Item
 		r := f(chain(db, in), &it)
 		if errors.Is(r.Error, gorm.ErrRecordNotFound) {
+			if r.RowsAffected != 0 {
+				o.Errs = append(o.Errs, fmt.Sprintf("%s: not found with RowsAffected=%d", name, r.RowsAffected))
+			}
 			return nil
 		}
 		fail(name, r.Error)
